@@ -105,16 +105,24 @@ fn limit(items: &mut Vec<Item>, budget: &mut usize, depth: usize, caught: bool) 
 /// A thread that has caught a panic and is used on: `Catch{ scope{ .., Panic } }` in front of the rest of
 /// the program, where the scope is a span (any form) or an incoming header frame, possibly nested.
 fn panic_prologue() -> impl Strategy<Value = Option<Item>> {
-    let dying_span = |items: Vec<Item>| (form(), Just(items)).prop_map(|(form, items)| Item::Span(Node { form, items }));
-    let tail = prop::collection::vec(leaf(), 0..2).prop_map(|mut v| {
-        v.push(Item::Panic);
-        v
-    });
+    // a span of any form whose body ends in a planned panic
+    fn dying_span() -> BoxedStrategy<Item> {
+        (form(), prop::collection::vec(leaf(), 0..2))
+            .prop_map(|(form, mut items)| {
+                items.push(Item::Panic);
+                Item::Span(Node { form, items })
+            })
+            .boxed()
+    }
+    let via = || prop_oneof![Just(PushVia::Method), Just(PushVia::Function), Just(PushVia::Text)];
     let scope = prop_oneof![
-        3 => tail.clone().prop_flat_map(dying_span),
-        2 => (header(), prop_oneof![Just(PushVia::Method), Just(PushVia::Function), Just(PushVia::Text)], tail.clone()).prop_map(|(header, via, items)| Item::Push { header, via, items }),
-        2 => (header(), tail.clone().prop_flat_map(dying_span)).prop_map(|(header, span)| Item::Push { header, via: PushVia::Method, items: vec![span] }),
-        2 => (form(), tail.prop_flat_map(dying_span)).prop_map(|(form, span)| Item::Span(Node { form, items: vec![Item::Check, span] })),
+        3 => dying_span(),
+        2 => (header(), via(), prop::collection::vec(leaf(), 0..2)).prop_map(|(header, via, mut items)| {
+            items.push(Item::Panic);
+            Item::Push { header, via, items }
+        }),
+        2 => (header(), via(), dying_span()).prop_map(|(header, via, span)| Item::Push { header, via, items: vec![span] }),
+        2 => (form(), dying_span()).prop_map(|(form, span)| Item::Span(Node { form, items: vec![Item::Check, span] })),
     ];
     prop_oneof![2 => Just(None), 1 => scope.prop_map(|s| Some(Item::Catch { items: vec![s] }))]
 }
